@@ -262,6 +262,7 @@ class Unit:
         use_lemmas = None
         mutself = False
         unmut = []
+        mutparams = []
         rename = None
         sig_override = None
         mode = 'clauses'
@@ -294,6 +295,10 @@ class Unit:
             m = re.match(r'unmut\s+(\w+)\s*$', t)
             if m:
                 unmut.append(m.group(1))
+                continue
+            m = re.match(r'mutparam\s+(\w+)\s*$', t)
+            if m:
+                mutparams.append(m.group(1))
                 continue
             m = re.match(r'use-lemmas\s+(.*)$', t)
             if m:
@@ -335,6 +340,13 @@ class Unit:
             head, k = re.subn(r'\(\s*&\s*self\b', '(&mut self', head, count=1)
             if k != 1:
                 raise X.AnchorError('fn %s: mutself but no &self receiver' % name)
+            rw.bump('R8')
+        for pname in mutparams:
+            # R8 (parameter form): `p: &T` whose interior-mutable state (atomic flag, lock) the body
+            # changes is checked as `p: &mut T` (signature only; sequential semantics)
+            head, k = re.subn(r'\b%s\s*:\s*&\s*(?!mut\b)' % re.escape(pname), pname + ': &mut ', head, count=1)
+            if k != 1:
+                raise X.AnchorError('fn %s: mutparam %s: no such `&` parameter' % (name, pname))
             rw.bump('R8')
         if rename:
             head = re.sub(r'\bfn\s+%s\b' % re.escape(name), 'fn ' + rename, head, count=1)
@@ -431,8 +443,10 @@ class Unit:
                 buf = ''
                 if lines and lines[0] == '@@GHOST@@':
                     for ln in lines[1:]:
-                        if not re.match(r'\s*let ghost\b', ln):
-                            raise X.AnchorError('ghost-before/after blocks may only contain `let ghost` lines')
+                        # only ghost state may be touched: a `let ghost` binding or an assignment of a
+                        # Ghost(..) value to a field (erased at compile time; no effect on executable state)
+                        if not re.match(r'\s*(let ghost\b|self\.\w+ = Ghost\(.*\);\s*$)', ln):
+                            raise X.AnchorError('ghost-before/after blocks may only contain `let ghost` lines or `self.f = Ghost(..);`')
                         emit(ln)
                 else:
                     emit('proof {')
